@@ -55,19 +55,32 @@ func startedWrapper(c *Ctx, v ssa.Value) (*wrapperInfo, string) {
 		}
 		var f *types.Var
 		isSet := func(in ssa.Instruction) bool {
-			s, ok := in.(*ssa.Store)
-			if !ok {
+			var ff *types.Var
+			var val ssa.Value
+			switch s := in.(type) {
+			case *ssa.Store:
+				fa, ok := s.Addr.(*ssa.FieldAddr)
+				if !ok || fa.X != fn.Params[0] {
+					return false
+				}
+				ff, val = st.Field(fa.Field), s.Val
+			case *ssa.Call:
+				// a trivial setter method on the wrapper: t.markStarted()
+				sc := s.Call.StaticCallee()
+				if sc == nil || len(s.Call.Args) == 0 || s.Call.Args[0] != ssa.Value(fn.Params[0]) {
+					return false
+				}
+				ff, val = trivialSetter(sc)
+				if ff == nil {
+					return false
+				}
+			default:
 				return false
 			}
-			fa, ok := s.Addr.(*ssa.FieldAddr)
-			if !ok || fa.X != fn.Params[0] {
-				return false
-			}
-			k, ok := s.Val.(*ssa.Const)
+			k, ok := val.(*ssa.Const)
 			if !ok || k.Value == nil || k.Value.String() != "true" {
 				return false
 			}
-			ff := st.Field(fa.Field)
 			if f == nil {
 				f = ff
 			}
@@ -119,16 +132,23 @@ func gatePolarity(ifi *ssa.If, wi *wrapperInfo) (bool, int) {
 		}
 		break
 	}
-	ld, ok := v.(*ssa.UnOp)
-	if !ok || ld.Op != token.MUL {
-		return false, 0
+	var o types.Type
+	var f *types.Var
+	if call, isCall := v.(*ssa.Call); isCall {
+		// a trivial getter on the wrapper: tracked.responseStarted()
+		o, f, _ = fieldOf(call)
+	} else {
+		ld, ok := v.(*ssa.UnOp)
+		if !ok || ld.Op != token.MUL {
+			return false, 0
+		}
+		fa, ok := ld.X.(*ssa.FieldAddr)
+		if !ok {
+			return false, 0
+		}
+		o, f, _ = fieldOf(fa)
 	}
-	fa, ok := ld.X.(*ssa.FieldAddr)
-	if !ok {
-		return false, 0
-	}
-	o, f, _ := fieldOf(fa)
-	if f != wi.Field || !types.Identical(deref(o), wi.T) {
+	if f == nil || f != wi.Field || !types.Identical(deref(o), wi.T) {
 		return false, 0
 	}
 	if neg {
